@@ -40,10 +40,12 @@ def pre_hook(seq, op, world):
 
 
 def conformance(ctx):
-    if ctx.op[0] not in ("add", "add_dmm", "align", "delay", "eom_pulse"):
+    if ctx.op[0] not in ("add", "add_dmm", "align", "delay", "eom_pulse", "phase_shift"):
         return []
+    # "ref-used" / "ref-time": where the phase-shift barrier of an atom sits (the latest end of a pulse on it, the time of its latest
+    # shift) is part of this property's 'no-delay' clause - the monitors below read the barrier from the library's own record
     return [(f"C03:refsched:{fp}", d) for fp, d in refsched.conformance(ctx)
-            if "slot" in fp]
+            if "slot" in fp or "ref-used" in fp or "ref-time" in fp]
 
 
 def protocols(ctx):
